@@ -57,6 +57,7 @@ package parser
 
 //@ func (p *parser) parseProgram
 //@ requires pinv(p)
+//@ ensures prog: result != nil
 //@ ensures inv: lexer.linv(p.Lexer) && lexer.lhtml(p.Lexer) && errsok(p) && M(p) <= old(M(p))
 //@ ensures flag: p.inForBlock == old(p.inForBlock)
 //@ assigns p.curToken, p.peekToken, p.errors, p.inForBlock, p.Lexer.ch, p.Lexer.position, p.Lexer.readPosition, p.Lexer.curLine, p.Lexer.tagLine, p.Lexer.inside, anyobj(ast.Identifier.Callee), anyobj(ast.CallExpression.Callee), anyobj(ast.CallExpression.Block), fresh
@@ -270,6 +271,10 @@ package parser
 // that follows it as its own block) and the block itself - is parsed with the in-loop flag set
 //@ assert iterflag: p.inForBlock && callarg1 == LOWEST before parseExpression#1
 //@ assert bodyflag: p.inForBlock before parseBlockStatement#1
+// C15: an unclosed header is reported against the line of the for tag - the line saved (ln) when the
+// header was opened, not the line of whatever token the scan for ) has reached
+//@ ghost hdrerr = callresult after Sprintf#1
+//@ ensures forline: calls(Sprintf) == 1 ==> linestr(hdrerr, box(ln))
 // C18 cursor convention: a block construct ends on its closing brace (or at EOF); (when the iterable is a
 // call expression the loop may have taken over that call's block - not covered by this clause)
 //@ ensures lasttok: result != nil && !is(unbox(result, "*ast.ForExpression").Iterable, "*ast.CallExpression") ==> p.curToken.Type == token.RBRACE || p.curToken.Type == token.EOF
@@ -429,8 +434,12 @@ package parser
 //@ assigns p.curToken, p.peekToken, p.errors, p.inForBlock, p.Lexer.ch, p.Lexer.position, p.Lexer.readPosition, p.Lexer.curLine, p.Lexer.tagLine, p.Lexer.inside, anyobj(ast.Identifier.Callee), anyobj(ast.CallExpression.Callee), anyobj(ast.CallExpression.Block), fresh
 
 //@ func Parse
-//@ trusted
+// C02: the whole text, unchanged, is what gets tokenised
+//@ assert whole: callarg0 == s before New#1
 //@ ensures ok: err == nil ==> result != nil
+// the syntax-tree objects parseProgram patches (Identifier.Callee, CallExpression.Callee/Block) are all
+// allocated by this very parse; the frame of Parse is not checked against that wildcard
+//@ noframe
 //@ assigns fresh
 
 // ---- C06: the precedence table ------------------------------------------------------------------
